@@ -255,6 +255,46 @@ def Dur.obs (d : Dur) : DurObs :=
   ⟨d.st.years, d.st.months, d.st.weeks, d.st.rdays, d.st.hours, d.st.minutes, d.st.rsecs, d.st.micros,
    d.invert, d.base.d, d.base.s, d.base.us⟩
 
+/-! ### AbsoluteDuration (what `Time.diff`/`closest` return; `duration.py`, class `AbsoluteDuration`)
+
+The `timedelta` base keeps the *signed* total (years/months are not folded in), every pendulum attribute is the
+absolute value, and the sign survives only in `_total` (read by `invert`). -/
+
+/-- `AbsoluteDuration.__new__`'s attributes: `divmod(abs(total_us), 10**6)`, `divmod(total, 86400)`,
+    `_days = abs(days + years*365 + months*30)`, `divmod(days, 7)`, `abs(months)`, `abs(years)` -/
+def absState (t years months : Int) : DurState :=
+  let secs := absI t / 1000000
+  let days := secs / 86400
+  { total := t, years := absI years, months := absI months,
+    weeks := days / 7, days := absI (days + years * 365 + months * 30), rdays := days % 7,
+    seconds := secs % 86400, micros := absI t % 1000000 }
+
+def AbsDur.new (days seconds micros millis minutes hours weeks years months : Int) : Dur :=
+  let t := argTotal days seconds micros millis minutes hours weeks
+  ⟨Base.ofTotal t, absState t years months⟩
+
+/-- `AbsoluteDuration.invert`: `self._total < 0` -/
+def Dur.absInvert (d : Dur) : Bool := decide (d.st.total < 0)
+
+/-- `cls(days, seconds, microseconds)` (here `AbsoluteDuration.__new__`) then `__dict__.update(state)`;
+    `__reduce__` is inherited from `Duration` (= `reduceDur`) -/
+def rebuildAbs (r : Base × DurState) : Dur :=
+  { (AbsDur.new r.1.d r.1.s r.1.us 0 0 0 0 0 0) with st := r.2 }
+
+/-- `AbsoluteDuration.__deepcopy__` = `copy.copy(self)` = the reduce path -/
+def deepcopyAbs (d : Dur) : Dur := rebuildAbs (reduceDur d)
+
+/-- before the repairs: `timedelta.__reduce__` alone (years/months lost, sign kept) … -/
+def rebuildAbs_old (d : Dur) : Dur := AbsDur.new d.base.d d.base.s d.base.us 0 0 0 0 0 0
+
+/-- … and the inherited `Duration.__deepcopy__`: the class on the (absolute) components — the sign is lost -/
+def deepcopyAbs_old (d : Dur) : Dur :=
+  AbsDur.new d.st.rdays d.st.rsecs d.st.micros 0 d.st.minutes d.st.hours d.st.weeks d.st.years d.st.months
+
+def Dur.absObs (d : Dur) : DurObs :=
+  ⟨d.st.years, d.st.months, d.st.weeks, d.st.rdays, d.st.hours, d.st.minutes, d.st.rsecs, d.st.micros,
+   d.absInvert, d.base.d, d.base.s, d.base.us⟩
+
 /-! ### Interval -/
 
 /-- `datetime.__gt__`: same tzinfo object (or equal offsets) ⇒ wall clocks, else instants -/
@@ -308,6 +348,10 @@ def rebuildTime (r : Int × Option Tz) : TimeV := ⟨r.1, r.2, false⟩
 def pickleTime (t : TimeV) : TimeV :=
   let r := reduceTime t
   rebuildTime (r.1, r.2.map fun z => rebuildTz (reduceTz z))
+
+/-- `Time` defines no `__deepcopy__`: `copy.deepcopy` takes `__reduce_ex__(4)`, deep-copies the argument tuple
+    (the tzinfo through its own reduce/rebuild) and calls the class on it -/
+def deepcopyTime (t : TimeV) : TimeV := pickleTime t
 
 /-- a Time's fold never selects an offset (`utcoffset()` calls `tzinfo.utcoffset(None)`), so it is not observed -/
 structure TimeObs where
